@@ -100,6 +100,17 @@ public:
     void onRequest(const Http::Request& req, Http::ResponseWriter response) override
     {
         Plan& p = *g_plan;
+        if (p.mode == "QB")
+        {
+            // a large request body: length and content as the client built them
+            const std::string& b = req.body();
+            bool ok = true;
+            for (size_t i = 0; i < b.size() && ok; ++i)
+                ok = b[i] == static_cast<char>('a' + (i * 7 + i / 4093) % 26);
+            p.seen = "len=" + std::to_string(b.size()) + " content=" + (ok ? "1" : "0");
+            response.send(Http::Code::Ok, "got " + std::to_string(b.size()));
+            return;
+        }
         if (p.mode == "V")
         {
             ++p.vseen;
@@ -241,6 +252,52 @@ static std::string handle(const std::string& line)
     Plan plan;
     g_plan    = &plan;
     plan.mode = t[0];
+    if (t[0] == "QB" && (t.size() == 3 || t.size() == 4))
+    {
+        // (a fourth token: a small request goes first, so that the large one is sent on an established keep-alive connection)
+        // QB <body bytes> <client time-out ms>: a POST whose body is larger than what the socket takes at once
+        size_t n = static_cast<size_t>(atoll(t[1].c_str()));
+        Http::Endpoint server(Address("127.0.0.1", Port(0)));
+        server.init(Http::Endpoint::options().threads(1).flags(Tcp::Options::ReuseAddr).maxRequestSize(n + 4096));
+        server.setHandler(Http::make_handler<WireHandler>());
+        server.serveThreaded();
+        std::string body(n, ' ');
+        for (size_t i = 0; i < n; ++i)
+            body[i] = static_cast<char>('a' + (i * 7 + i / 4093) % 26);
+        std::string outcome = "P", answer;
+        {
+            Http::Experimental::Client client;
+            client.init(Http::Experimental::Client::options().threads(1).maxConnectionsPerHost(1));
+            std::atomic<int> st { 0 };
+            if (t.size() == 4)
+            {
+                std::atomic<int> first { 0 };
+                client.post("http://127.0.0.1:" + std::to_string(static_cast<uint16_t>(server.getPort())) + "/small")
+                    .body(std::string("abcdefghij"))
+                    .timeout(std::chrono::milliseconds(3000))
+                    .send()
+                    .then([&](Http::Response) { first = 1; }, [&](std::exception_ptr) { first = 2; });
+                for (int k = 0; k < 8000 && first.load() == 0; ++k)
+                    std::this_thread::sleep_for(std::chrono::microseconds(500));
+                plan.seen.clear();
+            }
+            client.post("http://127.0.0.1:" + std::to_string(static_cast<uint16_t>(server.getPort())) + "/big")
+                .body(body)
+                .timeout(std::chrono::milliseconds(atoi(t[2].c_str())))
+                .send()
+                .then([&](Http::Response r) { answer = r.body(); st = 1; },
+                      [&](std::exception_ptr e) {
+                          try { std::rethrow_exception(e); } catch (const std::exception& x) { answer = std::string("ERR ") + x.what(); } catch (...) { answer = "ERR ?"; }
+                          st = 2;
+                      });
+            for (int k = 0; k < 40000 && st.load() == 0; ++k)
+                std::this_thread::sleep_for(std::chrono::microseconds(500));
+            outcome = st.load() == 1 ? "F" : st.load() == 2 ? "R" : "P";
+            client.shutdown();
+        }
+        server.shutdown();
+        return "QB promise=" + outcome + " answer=" + (answer.empty() ? "-" : pv::hex(answer)) + " " + (plan.seen.empty() ? "len=- content=-" : plan.seen);
+    }
     size_t cap = 4096 * 1024;
     if (t[0] == "P" && (t.size() == 7 || t.size() == 8))
     {
